@@ -116,7 +116,7 @@ def gen_unit(sidecar_path: str, repo: str) -> dict:
     hs = sc.get('handler', {})
     dn = '%s_def_n' % op
     dc = sc.get('def_c', 'fin_c(%s(%s))' % (dn, def_args('xs')))
-    de = sc.get('def_e', 'fin_e(%s(%s), e)' % (dn, def_args('xs')))
+    de = sc.get('def_e', 'fin_e(%s(%s), $e)' % (dn, def_args('xs')))
     rep = '%s_rep' % op
     for which, cl in zip(names, sk.handlers):
         try:
@@ -132,9 +132,17 @@ def gen_unit(sidecar_path: str, repo: str) -> dict:
         params = cell_params() + cap_params() + ['sctl: &mut SctlModel<%s>' % tout]
         params += ['%s: %s' % (pn, ptypes[which][k]) for k, pn in enumerate(pnames)]
         params += ['Ghost(xs): Ghost<Seq<%s>>' % tin]
+        def subst(t, serial=serial, rest=rest):
+            t = t.replace('$serial', serial)
+            if rest:
+                t = t.replace('$x', rest[0]).replace('$e', rest[0])
+            return t
+        hc = {k: ([subst(x) for x in v] if isinstance(v, list) else subst(v) if isinstance(v, str) else v) for k, v in hc.items()}
         req = ['old(sctl).wf()',
                'old(sctl).sub@ ==> live_post(old(sctl), %s(%s), %s as int)' % (dn, def_args('xs'), serial),
                'old(sctl).sub@ ==> %s(%s)' % (rep, spec_args(cell_args_old(), 'xs'))]
+        if sc.get('live_only'):
+            req.append('old(sctl).sub@')
         req += hc.get('requires', [])
         if which == 'next':
             x = rest[0]
@@ -146,14 +154,14 @@ def gen_unit(sidecar_path: str, repo: str) -> dict:
             e = rest[0]
             ens = ['step_safe(old(sctl), final(sctl))',
                    '!final(sctl).sub@',
-                   'old(sctl).sub@ && !old(sctl).quits@ ==> final(sctl).out@ == %s' % de.replace(', e)', ', %s)' % e)]
+                   'old(sctl).sub@ && !old(sctl).quits@ ==> final(sctl).out@ == %s' % subst(de)]
         else:
             ens = ['step_safe(old(sctl), final(sctl))',
                    '!final(sctl).sub@',
                    'old(sctl).sub@ && !old(sctl).quits@ ==> final(sctl).out@ == %s' % dc]
         ens += hc.get('ensures', [])
         body = ex.text
-        body = insert_loop_invariants(body, hc.get('invariants', []))
+        body = insert_loop_invariants(body, hc.get('invariants', []), hc.get('for_names'))
         pre = hc.get('proof_pre', '')
         post = hc.get('proof', '')
         fn_name = '%s_%s' % (op, which)
@@ -186,7 +194,7 @@ def gen_unit(sidecar_path: str, repo: str) -> dict:
         ptys = hc['param_types']
         params += ['%s: %s' % (pn, ptys[k]) for k, (pn, _pt) in enumerate(ex.params)]
         params += hc.get('ghost_params', [])
-        body = insert_loop_invariants(ex.text, hc.get('invariants', []))
+        body = insert_loop_invariants(ex.text, hc.get('invariants', []), hc.get('for_names'))
         fn_name = '%s_%s' % (op, hname)
         header = '// extracted helper closure: %s chars %d..%d (line %d) sha256=%s\n// replacements: %s\n' % (
             sc['file'], ex.span[0], ex.span[1], rxprep.line_of(src, ex.span[0]), ex.sha256, json.dumps(ex.replacements))
@@ -238,24 +246,33 @@ def gen_unit(sidecar_path: str, repo: str) -> dict:
             'twin_names': [m['fn'] + '_twin' for m in extracted_meta]}
 
 
-def insert_loop_invariants(body: str, invs: List[str]) -> str:
-    """R5: the k-th loop (`for`/`while`/`loop` keyword, textual order) gets invs[k] inserted before its body brace"""
-    if not invs:
+def insert_loop_invariants(body: str, invs: List[str], for_names: List[str] = None) -> str:
+    """R5: the k-th loop (`for`/`while`/`loop` keyword, textual order) gets invs[k] inserted before its body brace; a `for` loop
+    may additionally get a ghost iterator name (`for x in NAME: expr`) so that the invariant can speak about progress"""
+    if not invs and not for_names:
         return body
     import rxlex
     toks = rxlex.tree(body)
     loops = []
     for parent, i, t in rxlex.walk(toks):
         if t.kind == 'ident' and t.text in ('for', 'while', 'loop'):
+            in_end = None
             for j in range(i + 1, len(parent)):
+                if t.text == 'for' and in_end is None and parent[j].is_id('in'):
+                    in_end = parent[j].end
                 if parent[j].is_group('{'):
-                    loops.append(parent[j].start)
+                    loops.append((t.start, parent[j].start, in_end))
                     break
     loops.sort()
+    edits = []
+    for k, (kw, brace, in_end) in enumerate(loops):
+        if invs and k < len(invs) and invs[k]:
+            edits.append((brace, '\n' + invs[k] + '\n'))
+        if for_names and k < len(for_names) and for_names[k] and in_end is not None:
+            edits.append((in_end, ' %s:' % for_names[k]))
     out = body
-    for k in reversed(range(len(loops))):
-        if k < len(invs) and invs[k]:
-            out = out[:loops[k]] + '\n' + invs[k] + '\n' + out[loops[k]:]
+    for pos, txt in sorted(edits, reverse=True):
+        out = out[:pos] + txt + out[pos:]
     return out
 
 
